@@ -78,40 +78,58 @@ Proof.
 Qed.
 
 
+End Sim.
+
+Section Eq.
+Variable pv : N.
+Variable sv : N.
+Variable bound : N.
+
 (* ---- unfolding equations of the fragment predicate (cbn would expose the raw mutual fixpoint) ---- *)
-Lemma frag_expr_if k sc brs sp : frag_expr pv sv bound fl (S k) sc (EIf brs sp) = frag_branches pv sv bound fl k sc brs.
+Lemma frag_expr_if fl k sc brs sp : frag_expr pv sv bound fl (S k) sc (EIf brs sp) = frag_branches pv sv bound fl k sc brs.
 Proof. reflexivity. Qed.
-Lemma frag_branches_some k sc cond body sp brs :
+Lemma frag_branches_some fl k sc cond body sp brs :
   frag_branches pv sv bound fl (S k) sc (IfBranch (Some cond) body sp :: brs) =
   (frag_expr pv sv bound fl k sc cond && is_some (frag_stmts pv sv bound fl k sc body) && frag_branches pv sv bound fl k sc brs)%bool.
 Proof. reflexivity. Qed.
-Lemma frag_branches_none k sc body sp brs :
+Lemma frag_branches_none fl k sc body sp brs :
   frag_branches pv sv bound fl (S k) sc (IfBranch None body sp :: brs) =
   match brs with [] => is_some (frag_stmts pv sv bound fl k sc body) | _ => false end.
 Proof. destruct brs; reflexivity. Qed.
-Lemma frag_stmts_cons k sc s ss :
+Definition is_fundef (s : Resolved.stmt) : bool :=
+  match s with SDefinition _ _ _ _ (EFunction _ _ _ _ _ _) _ => true | _ => false end.
+Lemma frag_stmts_fun fl k sc name fv kd t n params rt body b sp sp2 rest :
+  frag_stmts pv sv bound fl (S k) sc (SDefinition name fv kd t (EFunction n params rt body b sp) sp2 :: rest) =
+  if (fresh_id pv sv bound fl sc fv && params_ok pv sv bound ((fv, length (param_ids params)) :: fl) sc (param_ids params)
+      && is_some (frag_stmts pv sv bound ((fv, length (param_ids params)) :: fl) k (rev (param_ids params) ++ sc) body))%bool
+  then frag_stmts pv sv bound ((fv, length (param_ids params)) :: fl) k sc rest else None.
+Proof. reflexivity. Qed.
+Lemma frag_stmts_plain fl k sc s ss :
+  is_fundef s = false ->
   frag_stmts pv sv bound fl (S k) sc (s :: ss) =
   match frag_stmt pv sv bound fl k sc s with Some sc' => frag_stmts pv sv bound fl k sc' ss | None => None end.
+Proof. destruct s; try reflexivity. destruct value; try reflexivity. discriminate. Qed.
+Lemma frag_stmts_nil fl k sc : frag_stmts pv sv bound fl (S k) sc [] = Some (sc, fl).
 Proof. reflexivity. Qed.
-Lemma frag_stmt_block k sc ss sp :
+Lemma frag_stmt_block fl k sc ss sp :
   frag_stmt pv sv bound fl (S k) sc (SBlock ss sp) =
   match frag_stmts pv sv bound fl k sc ss with Some _ => Some sc | None => None end.
 Proof. reflexivity. Qed.
-Lemma frag_stmt_sexpr k sc value sp :
+Lemma frag_stmt_sexpr fl k sc value sp :
   frag_stmt pv sv bound fl (S k) sc (SStatementExpression value sp) = if frag_expr pv sv bound fl k sc value then Some sc else None.
 Proof. reflexivity. Qed.
-Lemma frag_stmt_loop k sc cond body sp :
+Lemma frag_stmt_loop fl k sc cond body sp :
   frag_stmt pv sv bound fl (S k) sc (SLoop cond body sp) =
   if (noexit_expr k cond && frag_expr pv sv bound fl k sc cond && is_some (frag_stmts pv sv bound fl k sc body))%bool then Some sc else None.
 Proof. reflexivity. Qed.
-Lemma frag_stmt_ret k sc value sp :
+Lemma frag_stmt_ret fl k sc value sp :
   frag_stmt pv sv bound fl (S k) sc (SRet (Some value) sp) = if frag_expr pv sv bound fl k sc value then Some sc else None.
 Proof. reflexivity. Qed.
-Lemma frag_stmt_assign k sc op v vsp value sp :
+Lemma frag_stmt_assign fl k sc op v vsp value sp :
   frag_stmt pv sv bound fl (S k) sc (SAssignment op (ERead v vsp) value sp) =
   if (assign_op op && memN v sc && frag_expr pv sv bound fl k sc value)%bool then Some sc else None.
 Proof. reflexivity. Qed.
-Lemma frag_stmt_def_eq k sc name var kd t value sp :
+Lemma frag_stmt_def_eq fl k sc name var kd t value sp :
   is_function value = false ->
   frag_stmt pv sv bound fl (S k) sc (SDefinition name var kd t value sp) =
   if (fresh_id pv sv bound fl sc var && frag_expr pv sv bound fl k (var :: sc) value)%bool then Some (var :: sc) else None.
@@ -122,47 +140,78 @@ Lemma definition_nonfun f var value ctx :
   definition (S f) var value ctx = (r <- expression f value ctx ;; ret ([IDefine var] ++ fst r ++ [IAssign var (snd r)])).
 Proof. destruct value; try discriminate; reflexivity. Qed.
 
-Lemma frag_stmt_def k sc name var kd t value sp sc' :
+Lemma frag_stmt_def fl k sc name var kd t value sp sc' :
   frag_stmt pv sv bound fl (S k) sc (SDefinition name var kd t value sp) = Some sc' ->
   is_function value = false /\ fresh_id pv sv bound fl sc var = true /\ frag_expr pv sv bound fl k (var :: sc) value = true /\ sc' = var :: sc.
 Proof.
   intros H. assert (Hnf : is_function value = false) by (destruct value; try reflexivity; discriminate H).
-  rewrite (frag_stmt_def_eq _ _ _ _ _ _ _ _ Hnf) in H.
+  rewrite (frag_stmt_def_eq _ _ _ _ _ _ _ _ _ Hnf) in H.
   destruct (fresh_id pv sv bound fl sc var); [|discriminate H]. cbn [andb] in H.
   destruct (frag_expr pv sv bound fl k (var :: sc) value); [|discriminate H]. inversion H. auto.
 Qed.
 
-Definition L_stmt (g : nat) : Prop :=
-  forall k s ctx c code c' sc sc' l,
-    statement g s ctx c = Ok (code, c') -> frag_stmt pv sv bound fl k sc s = Some sc' ->
-    exists b l', cshape u l code b l' c c'.
-
-Definition L_stmts (g : nat) : Prop :=
-  forall k ss ctx c cs c' sc sc' l,
-    mapM (fun s => statement g s ctx) ss c = Ok (cs, c') -> frag_stmts pv sv bound fl k sc ss = Some sc' ->
-    exists b l', cshape u l (concat cs) b l' c c'.
-
-Lemma L_stmts_of g : L_stmt g -> L_stmts g.
+Lemma frag_stmts_app : forall a k fl sc b r,
+  frag_stmts pv sv bound fl k sc (a ++ b) = Some r ->
+  exists sc1 fl1 k', frag_stmts pv sv bound fl k sc a = Some (sc1, fl1) /\ frag_stmts pv sv bound fl1 k' sc1 b = Some r.
 Proof.
-  intros IH k ss. revert k. induction ss as [|s ss IHss]; intros k ctx c cs c' sc sc' l Hm Hf.
-  - destruct (mapM_nil_ok _ _ _ _ Hm) as [-> ->]. eexists _, _. apply cshape_nil.
-  - destruct k as [|k]; [discriminate|]. rewrite frag_stmts_cons in Hf.
-    destruct (frag_stmt pv sv bound fl k sc s) as [sc1|] eqn:Hs; [|discriminate Hf].
-    apply mapM_cons_ok in Hm as (y & c1 & ys & Hy & Hys & ->).
-    destruct (IH k s ctx c y c1 sc sc1 l Hy Hs) as (b1 & l1 & Hs1).
-    destruct (IHss k ctx c1 ys c' sc1 sc' l1 Hys Hf) as (b2 & l2 & Hs2).
-    eexists _, _. cbn [concat]. eapply cshape_app; eassumption.
+  induction a as [|s a IH]; intros k fl sc b r H.
+  - exists sc, fl, k. split; [|exact H]. destruct k; [discriminate | reflexivity].
+  - destruct k as [|k]; [discriminate|]. cbn [app] in H.
+    destruct (is_fundef s) eqn:Hf.
+    + destruct s; try discriminate Hf. destruct value; try discriminate Hf. rewrite frag_stmts_fun in H.
+      match type of H with (if ?c then _ else _) = _ => destruct c eqn:Hc; [|discriminate H] end.
+      destruct (IH _ _ _ _ _ H) as (sc1 & fl1 & k' & A & B). exists sc1, fl1, k'. split; [|exact B].
+      rewrite frag_stmts_fun, Hc. exact A.
+    + rewrite (frag_stmts_plain _ _ _ _ _ Hf) in H. destruct (frag_stmt pv sv bound fl k sc s) as [sc0|] eqn:Hs; [|discriminate H].
+      destruct (IH _ _ _ _ _ H) as (sc1 & fl1 & k' & A & B). exists sc1, fl1, k'. split; [|exact B].
+      rewrite (frag_stmts_plain _ _ _ _ _ Hf), Hs. exact A.
 Qed.
 
-Lemma frag_stmts_app k a : forall sc b sc',
-  frag_stmts pv sv bound fl k sc (a ++ b) = Some sc' ->
-  exists sc1 k', frag_stmts pv sv bound fl k sc a = Some sc1 /\ frag_stmts pv sv bound fl k' sc1 b = Some sc'.
+Lemma frag_stmts_fnames : forall ss k fl sc sc' flr,
+  frag_stmts pv sv bound fl k sc ss = Some (sc', flr) -> incl (fnames fl) (fnames flr).
 Proof.
-  revert k. induction a as [|s a IH]; intros k sc b sc' H.
-  - exists sc, k. split; [|exact H]. destruct k; [discriminate | reflexivity].
-  - destruct k as [|k]; [discriminate|]. cbn [app] in H. rewrite frag_stmts_cons in *.
-    destruct (frag_stmt pv sv bound fl k sc s) as [sc0|]; [|discriminate].
-    apply IH in H. exact H.
+  induction ss as [|s ss IH]; intros k fl sc sc' flr H; (destruct k as [|k]; [discriminate|]).
+  - cbn in H. inversion H; subst. apply incl_refl.
+  - destruct (is_fundef s) eqn:Hf.
+    + destruct s; try discriminate Hf. destruct value; try discriminate Hf. rewrite frag_stmts_fun in H.
+      match type of H with (if ?c then _ else _) = _ => destruct c eqn:Hc; [|discriminate H] end.
+      apply IH in H. intros x Hx. apply H. right. exact Hx.
+    + rewrite (frag_stmts_plain _ _ _ _ _ Hf) in H. destruct (frag_stmt pv sv bound fl k sc s) as [sc0|] eqn:Hs; [|discriminate H].
+      eapply IH; exact H.
+Qed.
+
+End Eq.
+
+Section Sim.
+Variable pv : N.
+Variable sv : N.
+Variable bound : N.
+Variable u : counts.
+Variable fl : list (N * nat).
+
+Notation L_stmt := (L_stmt pv sv bound u fl).
+Notation L_stmts := (L_stmts pv sv bound u fl).
+
+(* a local function:  local function V<f>(params) <body> end *)
+Lemma definition_fun f var name params rt body pure sp ctx :
+  definition (S f) var (EFunction name params rt body pure sp) ctx =
+  (_ <- fresh ;; bc <- lower_fbody (statement f) (expression f) body ctx ;;
+   IR.ret (IFunction var (param_ids params) :: bc ++ [IEnd])).
+Proof. reflexivity. Qed.
+
+Lemma cshape_fun_gen l f ps cb bb l1 c c' :
+  cshape u l cb bb l1 (c + 1) c' ->
+  cshape u l (IFunction f ps :: cb ++ [IEnd]) [SLocalFun (aname l f) (map fmt_var ps) bb] l1 c c'.
+Proof.
+  intros (H & Hc & Hf & _). split; [|split; [lia | split; [eapply lut_frame_widen; [exact Hf | lia | lia] | repeat constructor]]].
+  exact (Em_fun u l f ps cb bb l1 [] [] l1 H (Em_nil u l1)).
+Qed.
+
+Lemma cshape_fun l f ps cb bb l1 c c' :
+  cshape u l cb bb l1 (c + 1) c' -> alut_get l f = None ->
+  cshape u l (IFunction f ps :: cb ++ [IEnd]) [SLocalFun (fmt_var f) (map fmt_var ps) bb] l1 c c'.
+Proof.
+  intros H Hlf. pose proof (cshape_fun_gen l f ps cb bb l1 c c' H) as He. unfold aname in He. rewrite Hlf in He. exact He.
 Qed.
 
 (* two-armed if, and the loop shape *)
@@ -186,13 +235,13 @@ Proof.
 Qed.
 
 (* the block of an if-branch / function-like block whose last expression is assigned to `out` *)
-Lemma L_eblock g : L_expr pv sv bound u fl g -> L_stmts g ->
-  forall k out body ctx c code c' sc sc' l,
+Lemma L_eblock g : (forall fl', L_expr pv sv bound u fl' g) -> L_stmts g ->
+  forall k out body ctx c code c' sc scr l,
     lower_eblock (statement g) (expression g) out body ctx c = Ok (code, c') ->
-    frag_stmts pv sv bound fl k sc body = Some sc' ->
+    frag_stmts pv sv bound fl k sc body = Some scr ->
     exists b l', cshape u l code b l' c c'.
 Proof.
-  intros IHe IHs k out body ctx c code c' sc sc' l Hlow Hfrag. unfold lower_eblock in Hlow.
+  intros IHe IHs k out body ctx c code c' sc scr l Hlow Hfrag. unfold lower_eblock in Hlow.
   assert (Hwhole : lower_list (statement g) body ctx c = Ok (code, c') -> exists b l', cshape u l code b l' c c').
   { intros H. apply lower_list_ok in H as (cs & Hm & ->). eapply IHs; eassumption. }
   destruct (rev body) as [|last init_rev] eqn:Hrev; [apply Hwhole; exact Hlow|].
@@ -200,13 +249,13 @@ Proof.
   assert (Hbody : body = rev init_rev ++ [SStatementExpression value sp]) by (rewrite <- (rev_involutive body), Hrev; reflexivity).
   rewrite Hbody in Hfrag. clear Hwhole Hbody Hrev.
   mon Hlow. apply lower_list_ok in Hm as (cs & Hmi & ->).
-  destruct (frag_stmts_app _ _ _ _ _ Hfrag) as (sc1 & k' & Hfi & Hfl).
-  destruct k' as [|k']; [discriminate|]. rewrite frag_stmts_cons in Hfl.
+  destruct (frag_stmts_app _ _ _ _ _ _ _ _ _ Hfrag) as (sc1 & fl1 & k' & Hfi & Hfl).
+  destruct k' as [|k']; [discriminate|]. rewrite (frag_stmts_plain pv sv bound fl1) in Hfl by reflexivity.
   destruct k' as [|k'']; [discriminate|]. rewrite frag_stmt_sexpr in Hfl.
-  destruct (frag_expr pv sv bound fl k'' sc1 value) eqn:Hfe; [|discriminate Hfl].
+  destruct (frag_expr pv sv bound fl1 k'' sc1 value) eqn:Hfe; [|discriminate Hfl].
   destruct a0 as [cv rv]. cbn [fst snd] in *.
-  destruct (IHs k (rev init_rev) ctx c cs c0 sc sc1 l Hmi Hfi) as (b1 & l1 & Hs1).
-  destruct (IHe k'' value ctx c0 cv rv c' sc1 l1 Hm0 Hfe) as (b2 & l2 & Hs2 & _).
+  destruct (IHs k (rev init_rev) ctx c cs c0 sc (sc1, fl1) l Hmi Hfi) as (b1 & l1 & Hs1).
+  destruct (IHe fl1 k'' value ctx c0 cv rv c' sc1 l1 Hm0 Hfe) as (b2 & l2 & Hs2 & _).
   pose proof Hs2 as (_ & ? & _).
   eexists _, _. eapply cshape_app; [exact Hs1|]. eapply cshape_app; [exact Hs2|].
   apply (cshape_plain u l2 (IAssign out rv) c' c'); [lia | reflexivity | reflexivity | apply used_plain].
@@ -215,7 +264,7 @@ Qed.
 Lemma map_const_snoc {A B} (x : B) (l : list A) : map (fun _ => x) l ++ [x] = x :: map (fun _ => x) l.
 Proof. induction l as [|a l IH]; cbn; [reflexivity | rewrite IH; reflexivity]. Qed.
 
-Lemma L_branches g : L_expr pv sv bound u fl g -> L_stmts g ->
+Lemma L_branches g : (forall fl', L_expr pv sv bound u fl' g) -> L_stmts g ->
   forall brs k out ctx c codes c' sc l,
     mapM (lower_if_branch (statement g) (expression g) out ctx) brs c = Ok (codes, c') ->
     frag_branches pv sv bound fl k sc brs = true ->
@@ -227,7 +276,7 @@ Proof.
     destruct (frag_stmts pv sv bound fl k sc body) as [scb|] eqn:Hfb; [|discriminate Hfr0].
     apply mapM_cons_ok in Hm as (y & c1 & ys & Hy & Hys & ->).
     unfold lower_if_branch in Hy. mon Hy. destruct a as [code_c vc]. cbn [fst snd] in *.
-    destruct (IHe k cond ctx c code_c vc c0 sc l Hm Hf) as (bc & l1 & Hsc & _).
+    destruct (IHe fl k cond ctx c code_c vc c0 sc l Hm Hf) as (bc & l1 & Hsc & _).
     destruct (L_eblock g IHe IHs k out body ctx c0 a0 c1 sc scb l1 Hm0 Hfb) as (bb & l2 & Hsb).
     destruct (IH k out ctx c1 ys c' sc l2 Hys Hfr) as (br & l3 & Hsr).
     pose proof Hsc as (_ & ? & _). pose proof Hsb as (_ & ? & _). pose proof Hsr as (_ & ? & _).
@@ -267,9 +316,9 @@ Proof.
     intros r [<-|Hr]; [cbn [snd]; lia | specialize (Hrs r Hr); lia].
 Qed.
 
-Lemma L_expr_succ g : L_expr pv sv bound u fl g -> L_stmts g -> L_expr pv sv bound u fl (S g).
+Lemma L_expr_succ g : (forall fl', L_expr pv sv bound u fl' g) -> L_stmts g -> L_expr pv sv bound u fl (S g).
 Proof.
-  intros IH IHs k x ctx c code v c' sc l Hlow Hfrag.
+  intros IHall IHs. pose proof (IHall fl) as IH. intros k x ctx c code v c' sc l Hlow Hfrag.
   destruct k as [|k]; [discriminate|].
   destruct x; try discriminate Hfrag; cbn [frag_expr] in Hfrag.
   - (* ERead *)
@@ -357,7 +406,7 @@ Proof.
   - (* EIf *)
     change (frag_branches pv sv bound fl k sc branches = true) in Hfrag.
     cbn [expression] in Hlow. mon Hlow. fresh_all. inj_code.
-    destruct (L_branches g IH IHs branches k c ctx (c + 1) a0 c' sc l Hm0 Hfrag) as (b1 & l1 & Hs1).
+    destruct (L_branches g IHall IHs branches k c ctx (c + 1) a0 c' sc l Hm0 Hfrag) as (b1 & l1 & Hs1).
     pose proof Hs1 as (_ & ? & _).
     eexists _, _. split; [|lia].
     eapply cshape_cons'; [apply (cshape_plain u l (IDefine c) c c'); [lia | reflexivity | reflexivity | apply used_plain]|].
@@ -398,7 +447,7 @@ Proof.
     + eapply cshape_cons'; [apply (cshape_plain u l1 a0 c c0); [lia | exact Hsimple | exact Hnl | apply Hsame]|].
       apply (cshape_plain u l1 (IAssign var c) c c0); [lia | reflexivity | reflexivity | apply used_plain].
   - (* SDefinition *)
-    destruct (frag_stmt_def _ _ _ _ _ _ _ _ _ Hfrag) as (Hnf & Hfresh & Hfe & ->).
+    destruct (frag_stmt_def _ _ _ _ _ _ _ _ _ _ _ _ _ Hfrag) as (Hnf & Hfresh & Hfe & ->).
     cbn [statement] in Hlow. destruct g as [|g']; [discriminate|].
     rewrite (definition_nonfun g' var value ctx Hnf) in Hlow. mon Hlow.
     destruct a as [code_v rv]. cbn [fst snd] in *.
@@ -456,21 +505,92 @@ Qed.
 Lemma L_stmt_zero : L_stmt O.
 Proof. intros k s ctx c code c' sc sc' l H. discriminate. Qed.
 
-Theorem L_all g : forall g', (g' <= g)%nat -> L_expr pv sv bound u fl g' /\ L_stmt g'.
+End Sim.
+
+(* ---- statement lists, in which the callable functions change, and all levels together ---- *)
+Section All.
+Variable pv : N.
+Variable sv : N.
+Variable bound : N.
+Variable u : counts.
+
+Lemma L_stmts_of g :
+  (forall fl, L_stmt pv sv bound u fl g) -> (forall fl g2, g = S (S g2) -> L_fb pv sv bound u fl g2) ->
+  forall fl, L_stmts pv sv bound u fl g.
 Proof.
-  induction g as [|g IH]; intros g' Hg.
-  - assert (g' = O) by lia. subst. split; [apply L_expr_zero | apply L_stmt_zero].
-  - destruct (Nat.eq_dec g' (S g)) as [->|Hne]; [|apply IH; lia].
-    assert (He : forall g', (g' <= g)%nat -> L_expr pv sv bound u fl g') by (intros g'' H; apply IH; exact H).
-    assert (Hs : L_stmts g) by (apply L_stmts_of; apply IH; lia).
-    split; [apply L_expr_succ; [apply He; lia | exact Hs] | apply L_stmt_succ; assumption].
+  intros IH IHF fl k ss. revert k fl. induction ss as [|s ss IHss]; intros k fl ctx c cs c' sc scr l Hm Hf.
+  - destruct (mapM_nil_ok _ _ _ _ Hm) as [-> ->]. eexists _, _. apply cshape_nil.
+  - destruct k as [|k]; [discriminate|].
+    apply mapM_cons_ok in Hm as (y & c1 & ys & Hy & Hys & ->). cbn [concat].
+    destruct (is_fundef s) eqn:Hfd.
+    + destruct s; try discriminate Hfd. destruct value; try discriminate Hfd. rewrite frag_stmts_fun in Hf.
+      match type of Hf with (if ?b then _ else _) = _ => destruct b eqn:Hc; [|discriminate Hf] end.
+      apply andb_prop in Hc as [_ Hfb].
+      match type of Hfb with is_some ?x = true => destruct x as [scout|] eqn:Hfbody; [|discriminate Hfb] end.
+      destruct g as [|[|g2]]; [cbn in Hy; discriminate Hy | cbn in Hy; discriminate Hy |].
+      cbn [statement] in Hy. rewrite definition_fun in Hy. mon Hy. fresh_all.
+      destruct (IHF _ g2 eq_refl k body ctx (c + 1) a0 c1 _ scout l Hm0 Hfbody) as (bb & l1 & Hsb).
+      destruct (IHss k _ ctx c1 ys c' sc scr l1 Hys Hf) as (b2 & l2 & Hs2).
+      eexists _, _. eapply cshape_app; [apply cshape_fun_gen; exact Hsb | exact Hs2].
+    + rewrite (frag_stmts_plain _ _ _ _ _ _ _ _ Hfd) in Hf.
+      destruct (frag_stmt pv sv bound fl k sc s) as [sc1|] eqn:Hs; [|discriminate Hf].
+      destruct (IH fl k s ctx c y c1 sc sc1 l Hy Hs) as (b1 & l1 & Hs1).
+      destruct (IHss k fl ctx c1 ys c' sc1 scr l1 Hys Hf) as (b2 & l2 & Hs2).
+      eexists _, _. eapply cshape_app; eassumption.
 Qed.
 
-Theorem L_expr_all g : L_expr pv sv bound u fl g.
-Proof. apply (L_all g g (Nat.le_refl g)). Qed.
-Theorem L_stmt_all g : L_stmt g.
-Proof. apply (L_all g g (Nat.le_refl g)). Qed.
-Theorem L_stmts_all g : L_stmts g.
-Proof. apply L_stmts_of, L_stmt_all. Qed.
+(* the body of a function: its last statement, if an expression, is returned *)
+Lemma L_fb_of g : (forall fl, L_expr pv sv bound u fl g) -> (forall fl, L_stmts pv sv bound u fl g) -> forall fl, L_fb pv sv bound u fl g.
+Proof.
+  intros IHe IHs fl k body ctx c code c' sc scr l Hlow Hfrag. unfold lower_fbody in Hlow.
+  destruct (rev body) as [|last init_rev] eqn:Hrev.
+  - apply ret_ok in Hlow as [<- <-]. eexists _, _. apply cshape_nil.
+  - assert (Hbody : body = rev init_rev ++ [last]) by (rewrite <- (rev_involutive body), Hrev; reflexivity).
+    rewrite Hbody in Hfrag. clear Hbody Hrev.
+    mon Hlow. apply lower_list_ok in Hm as (cs & Hmi & ->).
+    destruct (frag_stmts_app _ _ _ _ _ _ _ _ _ Hfrag) as (sc1 & fl1 & k' & Hfi & Hfl).
+    destruct (IHs fl k (rev init_rev) ctx c cs c0 sc (sc1, fl1) l Hmi Hfi) as (b1 & l1 & Hs1).
+    assert (Hgen : forall y, statement g last ctx c0 = Ok (y, c') -> exists b l', cshape u l (concat cs ++ y) b l' c c').
+    { intros y Hy. assert (Hm1 : mapM (fun s => statement g s ctx) [last] c0 = Ok ([y], c')) by (cbn [mapM]; unfold IR.bind, IR.ret; rewrite Hy; reflexivity).
+      destruct (IHs fl1 k' [last] ctx c0 [y] c' sc1 scr l1 Hm1 Hfl) as (b2 & l2 & Hs2). cbn [concat] in Hs2. rewrite app_nil_r in Hs2.
+      eexists _, _. eapply cshape_app; eassumption. }
+    destruct last; try (apply Hgen; exact Hm0).
+    clear Hgen. destruct k' as [|k']; [discriminate|]. rewrite (frag_stmts_plain pv sv bound fl1) in Hfl by reflexivity.
+    destruct k' as [|k'']; [discriminate|]. rewrite frag_stmt_sexpr in Hfl.
+    destruct (frag_expr pv sv bound fl1 k'' sc1 value) eqn:Hfe; [|discriminate Hfl].
+    mon Hm0. destruct a as [cv rv]. cbn [fst snd] in *.
+    destruct (IHe fl1 k'' value ctx c0 cv rv c' sc1 l1 Hm Hfe) as (b2 & l2 & Hs2 & _).
+    pose proof Hs2 as (_ & ? & _).
+    eexists _, _. eapply cshape_app; [exact Hs1|]. eapply cshape_app; [exact Hs2|].
+    apply (cshape_plain u l2 (IReturn rv) c' c'); [lia | reflexivity | reflexivity | reflexivity].
+Qed.
 
-End Sim.
+Theorem L_all g : forall g', (g' <= g)%nat -> forall fl,
+  L_expr pv sv bound u fl g' /\ L_stmt pv sv bound u fl g' /\ L_stmts pv sv bound u fl g' /\ L_fb pv sv bound u fl g'.
+Proof.
+  induction g as [|g IH]; intros g' Hg.
+  - assert (g' = O) by lia. subst.
+    assert (Hs0 : forall fl, L_stmts pv sv bound u fl O).
+    { apply L_stmts_of; [intros fl; apply L_stmt_zero | intros fl g2 H; discriminate H]. }
+    intros fl. split; [apply L_expr_zero|]. split; [apply L_stmt_zero|]. split; [apply Hs0|].
+    apply L_fb_of; [intros fl'; apply L_expr_zero | exact Hs0].
+  - destruct (Nat.eq_dec g' (S g)) as [->|Hne]; [|apply IH; lia].
+    assert (He : forall g', (g' <= g)%nat -> forall fl, L_expr pv sv bound u fl g') by (intros g'' H fl; apply IH; exact H).
+    assert (Hs : forall fl, L_stmts pv sv bound u fl g) by (intros fl; apply (IH g (Nat.le_refl g) fl)).
+    assert (He1 : forall fl, L_expr pv sv bound u fl (S g)) by (intros fl; apply L_expr_succ; [intros fl'; apply He; lia | apply Hs]).
+    assert (Hst1 : forall fl, L_stmt pv sv bound u fl (S g)) by (intros fl; apply L_stmt_succ; [intros g'' H; apply He; exact H | apply Hs]).
+    assert (Hss1 : forall fl, L_stmts pv sv bound u fl (S g)).
+    { apply L_stmts_of; [exact Hst1|]. intros fl g2 Heq. apply (IH g2); lia. }
+    intros fl. split; [apply He1|]. split; [apply Hst1|]. split; [apply Hss1|]. apply L_fb_of; assumption.
+Qed.
+
+Theorem L_expr_all fl g : L_expr pv sv bound u fl g.
+Proof. apply (L_all g g (Nat.le_refl g) fl). Qed.
+Theorem L_stmt_all fl g : L_stmt pv sv bound u fl g.
+Proof. apply (L_all g g (Nat.le_refl g) fl). Qed.
+Theorem L_stmts_all fl g : L_stmts pv sv bound u fl g.
+Proof. apply (L_all g g (Nat.le_refl g) fl). Qed.
+Theorem L_fb_all fl g : L_fb pv sv bound u fl g.
+Proof. apply (L_all g g (Nat.le_refl g) fl). Qed.
+
+End All.
